@@ -85,6 +85,7 @@ package searcher
 //@   props C08
 //@   mode int
 //@   requires s != nil && poolApart(ctx, s) && conjInv(s) && s.scorer != nil && !s.done && unconsumed(s.started, s.last, idKey(ID))
+//@   at call s.Next#0: assert s.initialized && forall(k, 0, len(s.searchers), implies(s.currs[k] != nil, dmKey(s.currs[k]) >= idKey(ID)))
 //@   modifies fields(ConjunctionSearcher), s.currs[*], fields(search.DocumentMatch), search.DocumentMatch.cowner, search.DocumentMatchPool.avail, mem(*search.DocumentMatch), search.Searcher.started, search.Searcher.last, search.Searcher.done
 //@   at return: ghost s.started = s.started || (result1 == nil && result0 != nil)
 //@   at return: ghost s.last = ite(result1 == nil && result0 != nil, dmKey(result0), s.last)
